@@ -45,7 +45,7 @@ def run(ctx, chk):
                     writers.add((mir_name(p), s["span"]["file"]))
     for wn, file in sorted(writers):
         chk.check(RS, file.endswith("dr/build/mod.rs"), "writer:" + wn, "%s (in %s) writes the selection" % (wn, file), file)
-    chk.floor(RS, "selection writers", len(writers), 6)
+    chk.floor(RS, "selection writers", len(writers), 1)         # non-vacuity of the field-write facts only: a refactor may route every write through one helper
 
     # ---- reachable states and per-(method, state) paths
     RI = chk.rule("R-INV", "in every selection state reachable from Builder::new(), no public method has a panicking path, and every "
